@@ -107,7 +107,7 @@ ALL_ENVS = []
 
 
 class Env:
-    PURE_EFFECTS = ('CLOCK', 'LOOP_CUT', 'SLEEP')
+    PURE_EFFECTS = ('CLOCK', 'LOOP_CUT', 'SLEEP', 'BEGIN_BUSY', 'SQL_ERROR', 'TIME')
 
     def __init__(self, program):
         self.program = program
@@ -863,6 +863,8 @@ class Env:
                 out.append(self.format_one(it, p[1:], x))
             elif p:
                 out.append(z3.StringVal(p))
+        if all(z3.is_string_value(o) for o in out):
+            return ''.join(_strval(o) for o in out)
         if len(out) == 1:
             return SV('str', out[0])
         return SV('str', z3.Concat(*out))
@@ -873,6 +875,14 @@ class Env:
         flags = spec[:-1]
         if isinstance(x, (int, str, float)) or x is None:
             return z3.StringVal(('%' + spec) % x)
+        if conv == 's' and not flags and isinstance(x, SV) and x.ty == 'real':
+            # a float formatted into text (only ever SQL text in this code base): hole token that the
+            # SQL parser maps back to the value (str(float) round-trips exactly)
+            holes = it.st.ghost.setdefault('holes', {})
+            n = len(holes)
+            holes[n] = x
+            self.use('str(float) formatted into SQL text denotes the same REAL value')
+            return z3.StringVal('\x00H%d\x00' % n)
         if conv == 's' and isinstance(x, SV) and x.ty == 'str' and not flags:
             return x.t
         if conv == 'd' and is_int(x):
@@ -916,6 +926,8 @@ class Env:
                 out.append(it.st.fresh('fmt', STR))
         if not out:
             return ''
+        if all(z3.is_string_value(o) for o in out):
+            return ''.join(_strval(o) for o in out)
         return SV('str', z3.Concat(*out) if len(out) > 1 else out[0])
 
     # ------------------------------------------------------------ containers
@@ -1092,6 +1104,10 @@ class Env:
             return it.unpack(v.inner, n)
         if v is None or is_int(v) or is_boolv(v) or is_floatv(v) or is_real(v):
             raise_py('TypeError', 'cannot unpack non-iterable')
+        if isinstance(v, Obj) and v.cls == 'SymSeq':
+            if it.st.branch(v.n == n):
+                return [v.elem(z3.IntVal(i)) for i in range(n)]
+            raise_py('ValueError', 'unpack: wrong number of values')
         return NotImplemented
 
     def make_set(self, it, items):
@@ -1141,7 +1157,10 @@ class Env:
         """Attributes / methods of scalar and container values."""
         m = getattr(self, 'vm_' + name, None)
         if m is not None:
-            return EnvFunc('method.' + name, lambda it2, a, k, m=m, o=o: m(it2, o, a, k))
+            e = EnvFunc('method.' + name, lambda it2, a, k, m=m, o=o: m(it2, o, a, k))
+            if name == 'append' and isinstance(o, list):
+                e.append_target = o
+            return e
         if isinstance(o, ExcVal) and name == 'args':
             return o.args
         if isinstance(o, ExcVal) and name == 'errno':
@@ -1318,6 +1337,11 @@ class Env:
 
     def make_callable_iter(self, it, f, sentinel):
         return self.lib.callable_iter(it, f, sentinel)
+
+
+def _strval(o):
+    import re
+    return re.sub(r'\\u\{([0-9a-fA-F]+)\}', lambda m: chr(int(m.group(1), 16)), o.as_string())
 
 
 class SortedItems:
